@@ -3,7 +3,9 @@
 
   request  {"fn":"compare","a":<CNetlist JSON>,"b":<CNetlist JSON>}
   answer   {"fixed":"ok"|fam, "unrepaired":"ok"|fam,            -- model of the repaired / pinned comparer
+            "noDrcFix","noNameFix","noDrcNoNameFix":"ok"|fam,    -- the proposed repairs individually left out
             "examinedEq":bool,                                   -- Spec: examined a a = examined a b
+            "examinedNEq":bool, "identsEq":bool,                 -- Spec: examinedN a a = examinedN a b; idents a = idents b
             "hyp":{"wfA","wfB","namedA","namedB","uniqueA","uniqueB","noAssignA","noAssignB","propKeysA"}}
   request  {"fn":"ping"}  ->  {"pong":true}
 
@@ -136,11 +138,18 @@ def handle (st : Unit) (j : Json) : Except String (Unit × Json) := do
       ("namedA", Json.bool (namedB a)), ("namedB", Json.bool (namedB b)),
       ("uniqueA", Json.bool (decide (UniqueNames a))), ("uniqueB", Json.bool (decide (UniqueNames b))),
       ("noAssignA", Json.bool (noAssignB a)), ("noAssignB", Json.bool (noAssignB b)),
+      ("assignOkA", Json.bool (assignOkB a)),
       ("propKeysA", Json.bool (propKeysB a))]
     return (st, Json.mkObj [
       ("fixed", Json.str (resStr (compare a b))),
       ("unrepaired", Json.str (resStr (compareUnrepaired a b))),
+      -- the landed repairs in, one or both of the proposed ones out
+      ("noDrcFix", Json.str (resStr (compareWith ⟨true, false, true⟩ a b))),
+      ("noNameFix", Json.str (resStr (compareWith ⟨true, true, false⟩ a b))),
+      ("noDrcNoNameFix", Json.str (resStr (compareWith ⟨true, false, false⟩ a b))),
       ("examinedEq", Json.bool (examinedEqB a a b)),
+      ("examinedNEq", Json.bool (examinedNEqB a a b)),
+      ("identsEq", Json.bool (identsEqB a b)),
       ("hyp", hyp)])
   throw s!"unknown fn {fn}"
 
